@@ -363,6 +363,56 @@ func main() {
 			t.Outcome("delivered-as-model")
 		})
 
+		// "Any number of fragments (including empty ones), control frames interleaved anywhere": a
+		// message whose first and last fragment are separated by a long run of frames that carry no
+		// message bytes - empty continuations, pings, pongs, or a mix - through every driver.
+		r.Part("E8-long-runs-of-empty-fragments-and-control-frames", func(t *explore.T) {
+			type job struct {
+				st   stream
+				desc string
+			}
+			var jobs []job
+			for _, side := range []streams.Side{streams.Server, streams.Client} {
+				for _, n := range []int{99, 100, 101, 257} {
+					for _, mix := range []string{"empty-continuations", "empty-pings", "pongs(p)", "alternating"} {
+						mk := func(i int, op byte, fin bool, pl []byte) streams.Frame {
+							return streams.Frame{H: refmodel.Hdr{Fin: fin, Op: op, Masked: side == streams.Server, Mask: streams.Masks[i%3]}, Payload: pl}
+						}
+						frames := []streams.Frame{mk(0, 1, false, []byte("a"))}
+						for i := 0; i < n; i++ {
+							switch {
+							case mix == "empty-continuations" || (mix == "alternating" && i%3 == 0):
+								frames = append(frames, mk(i, 0, false, nil))
+							case mix == "empty-pings" || (mix == "alternating" && i%3 == 1):
+								frames = append(frames, mk(i, 9, true, nil))
+							default:
+								frames = append(frames, mk(i, 10, true, []byte("p")))
+							}
+						}
+						frames = append(frames, mk(1, 0, true, []byte("z")), mk(2, 2, true, []byte("next")))
+						jobs = append(jobs, job{stream{side, frames}, fmt.Sprintf("%s Text-(a) %d x %s Cont(z) Bin(next)", side, n, mix)})
+					}
+				}
+			}
+			t.Par(len(jobs), func(i int) {
+				j := jobs[i]
+				data, _ := streams.Wire(j.st.frames)
+				for _, d := range ds {
+					for _, ch := range []int{0, 1} {
+						d, ch := d, ch
+						t.Do(func() string { return fmt.Sprintf("%s driver=%s chunk=%d", j.desc, d.Name, ch) }, func() *explore.Fail {
+							src := env.NewSrc(data)
+							src.Policy = env.FixedChunk(ch)
+							var res drivers.Result
+							d.Run(src, j.st.side, drivers.Cfg{}, &res)
+							return judge(d, j.st, &res, src)
+						})
+					}
+				}
+			})
+			t.Outcome("delivered-as-model")
+		})
+
 		// Messages read through a chain of receive extensions: the peer compresses some messages
 		// (RSV1 on the first frame, RFC 7692) and sends the others as they are; the application
 		// asks the permessage-deflate message state of the chain whether to inflate. Whatever the
